@@ -586,6 +586,8 @@ def decorate(case, rng):
         if len(chans) >= 2:
             case['cpmap'] = {rng.choice(chans): None}
         case['measmap'] = rng.choice([{'m': 'mm'}, {'m': None}, {'n': 'm2', 'm': 'm1'}])
+    if rng.random() < 0.25:
+        case['mc'] = [rng.choice(MC_CONFIGS), rng.choice(MC_CONFIGS)]
     if rng.random() < 0.25 and 'single' not in kinds_of(tpl, set()):
         cnt, other = set(), set()
         uses(tpl, cnt, other)
@@ -825,6 +827,38 @@ def gen_remap_cases(tier):
                                         c0(var('a'))]}
             cases.append({'kind': 'tpl', 'style': 'exact', 'tpl': tpl, 'params': {'a': tparam('0.5', 'time'), 'i': tparam('100', 'int')},
                           'family': 'remap'})
+    # name capture (former finding C04-forloop-index-capture, repaired in /repo 7d773a1): a mapping around a for-loop
+    # substitutes an expression that mentions the loop index's NAME (an outer parameter of that name); the range of a
+    # for-loop mentions its own index name (read outside of the loop); both; under a repetition / second loop
+    bodies = [c0(op('mul', var('i'), var('T'))), {'t': 'rep', 'count': var('i'), 'body': c0(var('T'))},
+              {'t': 'seq', 'subs': [c0(var('T')), {'t': 'rep', 'count': var('i'), 'body': c0(op('mul', var('T'), lit(2)))}]}]
+    k = 0
+    for e in (var('i'), op('add', var('i'), lit(1)), op('mul', var('i'), var('a')), op('max', var('i'), var('a'))):
+        for rg in ((0, 3, 1), (1, 2, 5), (4, 0, -2), (2, 2, 1)):
+            for body in bodies:
+                for iv in ('25/2', '3'):
+                    k += 1
+                    if tier == 'quick' and k % 4 and not (k <= 3):
+                        continue
+                    loop = {'t': 'for', 'idx': 'i', 'start': lit(rg[0]), 'stop': lit(rg[1]), 'step': lit(rg[2]), 'body': copy.deepcopy(body)}
+                    tpl = {'t': 'map', 'm': {'T': copy.deepcopy(e)}, 'body': loop}
+                    if k % 3 == 1:
+                        tpl = {'t': 'rep', 'count': lit(2), 'body': tpl}
+                    elif k % 3 == 2:    # the capturing name is itself the index of an enclosing loop
+                        tpl = {'t': 'seq', 'subs': [tpl, c0(op('mul', var('i'), var('a')))]}
+                    params = {'i': tparam(iv, 'time' if '/' in iv else 'int'), 'a': tparam('0.5', 'time')}
+                    used = free_params(tpl)
+                    cases.append({'kind': 'tpl', 'style': 'exact', 'tpl': tpl, 'params': {x: p for x, p in params.items() if x in used},
+                                  'family': 'capture'})
+    for a, b, s_ in ((var('i'), op('add', var('i'), lit(2)), 1), (lit(0), var('i'), 1), (var('i'), lit(0), -1),
+                     (var('i'), op('mul', var('i'), lit(2)), 2), (op('sub', var('i'), lit(1)), var('i'), 1)):
+        for j, body in enumerate(bodies):
+            loop = {'t': 'for', 'idx': 'i', 'start': a, 'stop': b, 'step': lit(s_), 'body': rename_var(copy.deepcopy(body), 'T', 'a')}
+            tpls = [loop, {'t': 'map', 'm': {'a': op('mul', var('i'), var('a'))}, 'body': copy.deepcopy(loop)},
+                    {'t': 'seq', 'subs': [copy.deepcopy(loop), c0(op('mul', var('i'), var('a')))]}]
+            for tpl in tpls if tier == 'thorough' else tpls[j % 3:j % 3 + 2]:
+                cases.append({'kind': 'tpl', 'style': 'exact', 'tpl': tpl, 'params': {'i': tparam('3', 'int'), 'a': tparam('0.5', 'time')},
+                              'family': 'capture'})
     return cases
 
 
@@ -892,10 +926,138 @@ def gen_drop_cases(tier):
     return cases
 
 
+INEXACT_MULTIPLES = [('0.1', 3), ('0.7', 3), ('1.1', 3), ('0.3', 3), ('0.2', 6), ('0.1', 7), ('0.05', 3), ('100.001', 7),
+                     ('1.3', 1000003), ('0.6', 6), ('3.3', 7), ('2.2', 3)]     # float(d) * n is not the double nearest to d * n
+EXACT_MULTIPLES = [('0.5', 3), ('0.1', 2), ('2', 3), ('0.25', 7)]             # controls
+MC_CONFIGS = [[2, 1], [3, 1], ['half', 1], ['total', 1], [4, 2], [1, 1]]
+
+
+def gen_decimal_cases(tier):
+    """deterministic (the class of seed C04-5: exact-vs-float numerics off the dyadic grid).  A body that renders to a
+    CONSTANT waveform (ConstantPT on one / two channels, hold-only table, point pulse, two equal constant pieces that get
+    merged, nested repetition, for-loop over constant pieces) of a decimal duration d, repeated n times with float(d)*n
+    inexact (0.1 x 3, 0.7 x 3, 1.1 x 3, ...; controls 0.5 x 3, 0.1 x 2), rendered as ONE waveform by every path the
+    library has: to_waveform(program) (always observed), to_single_waveform (the repetition itself / a sequence that
+    contains it), make_compatible (leaf with a count, whole sub-program, whole program).  d as TimeType and as float."""
+    cases = []
+    c0 = lambda e, v=1, chs=('c00',): {'t': 'const', 'd': e, 'v': {c: v for c in chs}}
+    ramp = {'t': 'table', 'chans': {'c00': [lit(0), var('t_r')]}, 'v': {'c00': [0, 1]}, 'interp': {'c00': ['hold', 'linear']}}
+    ramp2 = {'t': 'table', 'chans': {'c00': [lit(0), var('t_r')], 'c01': [lit(0), var('t_r')]}, 'v': {'c00': [0, 1], 'c01': [1, 0]},
+             'interp': {'c00': ['hold', 'linear'], 'c01': ['hold', 'linear']}}
+    bodies = [
+        ('const', lambda: c0(var('t_1')), 1),
+        ('const2ch', lambda: c0(var('t_1'), 1, ('c00', 'c01')), 2),
+        ('holdtable', lambda: {'t': 'table', 'chans': {'c00': [lit(0), var('t_1')]}, 'v': {'c00': [1, 1]},
+                               'interp': {'c00': ['hold', 'hold']}}, 1),
+        ('latetable', lambda: {'t': 'table', 'chans': {'c00': [var('t_1')]}, 'v': {'c00': [2]}, 'interp': {'c00': ['hold']}}, 1),
+        ('point', lambda: {'t': 'point', 'times': [lit(0), var('t_1')], 'ch': ['c00'], 'v': [1, 1]}, 1),
+        ('merged', lambda: {'t': 'seq', 'subs': [c0(var('t_1')), c0(op('mul', var('t_1'), lit(2)))]}, 1),    # d + 2d
+        ('merged2', lambda: {'t': 'seq', 'subs': [c0(var('t_1')), c0(var('t_2'))]}, 1),                        # 0.1 + 0.2
+        ('nested', lambda: {'t': 'rep', 'count': lit(2), 'body': c0(var('t_1'))}, 1),
+        ('forconst', lambda: {'t': 'for', 'idx': 'i_1', 'start': lit(0), 'stop': lit(2), 'step': lit(1),
+                              'body': c0(op('mul', var('t_1'), op('add', var('i_1'), lit(1))))}, 1),
+        ('ramp', lambda: {'t': 'table', 'chans': {'c00': [lit(0), var('t_1')]}, 'v': {'c00': [0, 1]},
+                          'interp': {'c00': ['hold', 'linear']}}, 1),                                           # control: not constant
+    ]
+    contexts = ['plain', 'single', 'single_then_ramp', 'single_seq', 'mc', 'rep_of_seq', 'count_param_float']
+    k = 0
+    for d, n in INEXACT_MULTIPLES + EXACT_MULTIPLES:
+        for bname, mk, nch in bodies:
+            for ctxname in contexts:
+                for style in ('time', 'float'):
+                    k += 1
+                    main = (d, n) in INEXACT_MULTIPLES[:3] and bname == 'const'
+                    if tier == 'quick' and not main and (k * 7 + len(bname)) % 23:
+                        continue
+                    params = {'t_1': tparam(d, style), 't_2': tparam(F(d) * 2, style), 't_r': tparam('0.4', 'time'),
+                              'n_1': tparam(n, 'int')}
+                    rep = {'t': 'rep', 'count': var('n_1'), 'body': mk()}
+                    rmp = copy.deepcopy(ramp if nch == 1 else ramp2)
+                    case = {'kind': 'tpl', 'style': 'exact' if style == 'time' else 'float', 'family': 'decimal'}
+                    if ctxname == 'plain':
+                        tpl = rep
+                    elif ctxname == 'single':
+                        tpl = {'t': 'single', 'body': rep}
+                    elif ctxname == 'single_then_ramp':
+                        tpl = {'t': 'seq', 'subs': [{'t': 'single', 'body': rep}, rmp]}
+                    elif ctxname == 'single_seq':
+                        tpl = {'t': 'single', 'body': {'t': 'seq', 'subs': [rep, rmp]}}
+                    elif ctxname == 'rep_of_seq':
+                        tpl = {'t': 'rep', 'count': lit(2), 'body': {'t': 'seq', 'subs': [rep, rmp]}}
+                    elif ctxname == 'count_param_float':
+                        params['n_1'] = tparam(n, 'float')
+                        tpl = {'t': 'seq', 'subs': [rep, rmp]}
+                    else:
+                        tpl = {'t': 'seq', 'subs': [rep, rmp]}
+                    case['mc'] = [list(c) for c in MC_CONFIGS]
+                    used = free_params(tpl)
+                    case['tpl'] = tpl
+                    case['params'] = {x: p for x, p in params.items() if x in used}
+                    cases.append(case)
+    return cases
+
+
+def gen_alias_cases(tier):
+    """deterministic (the class of seed C04-6: aliasing).  The very same template OBJECT (`alias`: equal JSON sub-trees are
+    built once) several times among the direct children of one SequencePT (w r w, r @ r, w w r, w r w r w, SequencePT.
+    concatenate), composite shared children, and the same object inside several enclosing templates (a repetition, two
+    for-loops, mappings with different right hand sides, time reversal, both operands of an arithmetic template, two
+    to_single_waveform occurrences); each also with distinct objects (control)."""
+    cases = []
+    w = {'t': 'const', 'd': var('t_w'), 'v': {'c00': 0}}
+    r = {'t': 'table', 'chans': {'c00': [lit(0), var('t_r')]}, 'v': {'c00': [0, 1]}, 'interp': {'c00': ['hold', 'linear']}}
+    f = {'t': 'func', 'd': var('t_r'), 'ch': ['c00'], 'expr': 't*0.5'}
+    dc = copy.deepcopy
+    seq = lambda *subs, **kw: {'t': 'seq', 'subs': [dc(s) for s in subs], **kw}
+    rep = lambda n, b: {'t': 'rep', 'count': n, 'body': dc(b)}
+    loop = lambda a, b, body: {'t': 'for', 'idx': 'i', 'start': lit(a), 'stop': b, 'step': lit(1), 'body': dc(body)}
+    mp = lambda m, b: {'t': 'map', 'm': m, 'body': dc(b)}
+    x = seq(w, r)
+    shapes = [
+        seq(w, r, w), seq(r, r, via='matmul'), seq(w, w, r), seq(w, r, w, r, w), seq(w, r, w, via='concat'),
+        seq(w, r, w, via='matmul'), seq(f, w, f),
+        seq(x, x), seq(x, w, x), seq(x, x, via='concat'), seq(seq(w, r), seq(r, w)),
+        loop(0, var('n_1'), seq(w, mp({'t_r': op('mul', var('t_r'), op('add', var('i'), lit(1)))}, r), w)),
+        rep(var('n_1'), seq(w, w, r)),
+        seq(rep(var('n_1'), w), loop(0, lit(2), seq(w, rep(var('i'), w))), mp({'t_w': op('mul', var('t_w'), lit(2))}, w), w),
+        seq(mp({'t_w': var('t_r')}, w), mp({'t_w': op('add', var('t_w'), var('t_r'))}, w), w),
+        seq(loop(0, lit(2), rep(var('i'), w)), loop(1, lit(4), rep(var('i'), w))),
+        seq(rep(var('n_1'), w), rep(var('n_1'), w), r),
+        seq(w, {'t': 'rev', 'body': dc(w)}, {'t': 'wrap', 'body': dc(w)}),
+        seq({'t': 'arith', 'lhs': dc(w), 'rhs': dc(w), 'op': '+'}, w),
+        seq({'t': 'single', 'body': dc(x)}, r, {'t': 'single', 'body': dc(x)}),
+        {'t': 'single', 'body': seq(w, r, w)},
+        mp({'t_w': var('t_r'), 't_r': var('t_w')}, seq(w, r, w)),
+        {'t': 'constr', 'cs': [[lit(0), var('t_w')]], 'body': seq(w, r, w)},
+        seq(w, r, w, meas=[['m', 0, 1]]),
+    ]
+    vals = [('0.5', '1.5'), ('0.1', '0.7'), ('3', '5')]
+    k = 0
+    for tw, tr in vals:
+        for shape in shapes:
+            for alias in (True, False):
+                for style in ('time', 'float'):
+                    k += 1
+                    if tier == 'quick' and (not alias or style == 'float') and k % 5:
+                        continue
+                    case = {'kind': 'tpl', 'style': 'exact' if style == 'time' else 'float', 'family': 'alias', 'tpl': dc(shape),
+                            'params': {'t_w': tparam(tw, style), 't_r': tparam(tr, style), 'n_1': tparam('3', 'int')}}
+                    used = free_params(case['tpl'])
+                    case['params'] = {a: p for a, p in case['params'].items() if a in used}
+                    if alias:
+                        case['alias'] = True
+                    if k % 3 == 0:
+                        case['mc'] = [[2, 1], ['total', 1]]
+                    cases.append(case)
+    return cases
+
+
 def gen_cases(rng, tier, ctx):
     cases = []
     cases.extend(gen_remap_cases(tier))
     cases.extend(gen_drop_cases(tier))
+    cases.extend(gen_decimal_cases(tier))
+    cases.extend(gen_alias_cases(tier))
     # real ForLoopPT over a box of ranges (exhaustive in thorough)
     k = 0
     for a in range(-4, 5):
@@ -1001,7 +1163,15 @@ def build0(t, singles=None, constraints=None, memo=None):
     if k == 'point':
         return PointPT([(expr_arg(e), [v] * len(t['ch'])) for e, v in zip(t['times'], t['v'])], t['ch'], **kw)
     if k == 'seq':
-        return SequencePT(*[sub(c) for c in t['subs']], **kw)
+        parts = [sub(c) for c in t['subs']]
+        if t.get('via') == 'matmul' and len(parts) >= 2 and not kw:      # a @ b @ c (SequencePT.concatenate flattens)
+            out = parts[0]
+            for p in parts[1:]:
+                out = out @ p
+            return out
+        if t.get('via') == 'concat':
+            return SequencePT.concatenate(*parts, **kw)
+        return SequencePT(*parts, **kw)
     if k == 'rep':
         return RepetitionPT(sub(t['body']), expr_arg(t['count']), **kw)
     if k == 'for':
@@ -1113,6 +1283,45 @@ def sum_pieces(loop, mult=1):
     return sum((sum_pieces(c, mult * loop.repetition_count) for c in loop), F(0))
 
 
+def leaf_durations(loop, acc):
+    if loop.is_leaf():
+        acc.append(vlib.to_fraction(loop.waveform.duration))
+    for c in loop:
+        leaf_durations(c, acc)
+    return acc
+
+
+def run_make_compatible(prog, configs):
+    """make_compatible(copy of the program, min_len, quantum, sample_rate) for every [min_len, quantum] of `configs`;
+    the sample rate is the least common denominator of all leaf durations (every piece is a whole number of samples);
+    min_len 'total' = the length of the whole program (everything is concatenated into one waveform), 'half' = half of
+    it.  -> per config the three durations afterwards, or the error kind (a program that cannot be made compatible)"""
+    from qupulse.program.loop import make_compatible, to_waveform
+    from qupulse.utils.types import TimeType
+    sr = 1
+    for d in leaf_durations(prog, []):
+        sr = sr * d.denominator // math.gcd(sr, d.denominator)
+    if sr > 10 ** 12:
+        return [{'err': 'rate'}]
+    total = vlib.to_fraction(prog.duration) * sr
+    out = []
+    for min_len, quantum in configs:
+        ml = int(total) if min_len == 'total' else max(1, int(total) // 2) if min_len == 'half' else int(min_len)
+        p2 = prog.copy_tree_structure()
+        try:
+            make_compatible(p2, ml, int(quantum), TimeType.from_fraction(sr, 1))
+        except (ValueError, AssertionError) as e:
+            out.append({'err': type(e).__name__})
+            continue
+        r = {'loop': vlib.frac_json(p2.duration), 'pieces': vlib.frac_json(sum_pieces(p2))}
+        try:
+            r['wf'] = vlib.frac_json(to_waveform(p2).duration)
+        except (ValueError, AssertionError):
+            r['wf'] = None
+        out.append(r)
+    return out
+
+
 def run_impl(case):
     if case['kind'] == 'range':
         from qupulse.pulses.range import ParametrizedRange
@@ -1130,7 +1339,10 @@ def run_impl(case):
     from qupulse.program.loop import to_waveform
     import numpy
     out = {}
-    with warnings.catch_warnings(), numpy.errstate(all='ignore'):
+    import contextlib
+    import io
+    # (SequenceWaveform prints a line before it raises for sub-waveforms with different channels)
+    with warnings.catch_warnings(), numpy.errstate(all='ignore'), contextlib.redirect_stdout(io.StringIO()):
         warnings.simplefilter('ignore')
         try:
             with vlib.time_limit(20):
@@ -1183,6 +1395,8 @@ def run_impl(case):
                 except (ValueError, AssertionError) as e:
                     out['prog']['wf'] = None
                     out['prog']['wf_exc'] = '%s: %s' % (type(e).__name__, str(e)[:100])
+                if case.get('mc'):
+                    out['mc'] = run_make_compatible(prog, case['mc'])
                 return out
         except vlib.Timeout:
             return {'hang': True}
@@ -1382,7 +1596,7 @@ def histogram_keys(case, obs):
                 'range:step%s' % ('+' if case['s'] > 0 else '-')]
     keys = ['tpl', 'style:' + case['style'], 'depth:%d' % depth_of(case['tpl'])]
     keys += ['family:' + case['family']] if case.get('family') else []
-    keys += ['extra:' + x for x in ('rootmap', 'cpmap', 'volatile') if case.get(x)]
+    keys += ['extra:' + x for x in ('rootmap', 'cpmap', 'volatile', 'mc', 'alias') if case.get(x)]
     if '"meas"' in __import__('json').dumps(case['tpl']):
         keys.append('extra:measurements')
     keys += sorted({'ptype:' + p['ty'] for p in case['params'].values()})
@@ -1404,9 +1618,29 @@ FINDING_OF_REASON = {'neg_count': 'C04-neg-count', 'neg_duration': 'C04-neg-dura
 
 
 def py_spec(case, obs):
-    """evaluate_in_scope on exact (int / TimeType) arguments must give the exact value of the expression"""
+    """Python-side oracles: (a) make_compatible leaves the durations alone, (b) evaluate_in_scope is exact"""
     if case.get('kind') != 'tpl':
         return None
+    return py_spec_mc(case, obs) or py_spec_num(case, obs)
+
+
+def py_spec_mc(case, obs):
+    # make_compatible (renders leaves / whole sub-programs as one waveform) must not change any of the three durations
+    pr = obs.get('prog')
+    if obs.get('mc') and isinstance(pr, dict) and 'loop' in pr:
+        for cfg_, r in zip(case.get('mc', []), obs['mc']):
+            if 'err' in r:
+                continue
+            got = (F(r['loop']), F(r['pieces']), None if r['wf'] is None or pr.get('wf') is None else F(r['wf']))
+            want = (F(pr['loop']), F(pr['pieces']), None if got[2] is None else F(pr['wf']))
+            if got != want:
+                return ('make_compatible(min_len=%s, quantum=%s) changed (Loop.duration, pieces, to_waveform) from %s to %s'
+                        % (cfg_[0], cfg_[1], [str(x) for x in want], [str(x) for x in got]))
+    return None
+
+
+def py_spec_num(case, obs):
+    """evaluate_in_scope on exact (int / TimeType) arguments must give the exact value of the expression"""
     sn = obs.get('sym_num')
     if sn is None or sn == 'float' or sn.startswith('exc:') or obs.get('sym') is None:
         return None
@@ -1425,7 +1659,7 @@ def classify(case, obs):
     an input the implementation nevertheless accepted with contradicting numbers."""
     if case.get('kind') != 'tpl' or 'prog' not in obs:
         return None
-    if isinstance(py_spec(case, obs), str) and for_with_parameter_bound(case['tpl']):
+    if isinstance(py_spec_num(case, obs), str) and py_spec_mc(case, obs) is None and for_with_parameter_bound(case['tpl']):
         # the numerically evaluated duration expression differs from its exact value, a for-loop with a bound that
         # is not a literal takes part: step count computed with float coefficients
         sp = c04_spec.spec(case)
@@ -1438,11 +1672,6 @@ def classify(case, obs):
     if pr is not None and 'err' in pr:
         return None
     sp = c04_spec.spec(case)
-    if sp[0] == 'ok' and not sp[2] and index_captured(case['tpl']) and obs.get('sym') is not None and F(obs['sym']) != sp[1] \
-            and ((pr is None and sp[1] == 0) or (pr is not None and F(pr['loop']) == sp[1] and F(pr['pieces']) == sp[1])):
-        # only the duration EXPRESSION is wrong: a mapping around a for-loop substitutes an expression that contains
-        # the loop index's name, the Sum's bound variable captures it
-        return 'C04-forloop-index-capture'
     if sp[0] == 'ok' and sp[3] and (pr is None or (F(pr['loop']) < sp[1] and F(pr['pieces']) == F(pr['loop'])
                                                     and pr.get('wf') is not None and F(pr['wf']) == F(pr['loop']))) \
             and (obs.get('sym') is None or F(obs['sym']) == sp[1]):
@@ -1543,7 +1772,7 @@ def shrink(case, obs, ctx=None):
     while improved and budget > 0:
         improved = False
         variants = [{**case, 'tpl': t} for t in _candidates(case['tpl'])]
-        variants += [{k: v for k, v in case.items() if k != x} for x in ('rootmap', 'cpmap', 'measmap', 'volatile', 'alias') if x in case]
+        variants += [{k: v for k, v in case.items() if k != x} for x in ('rootmap', 'cpmap', 'measmap', 'volatile', 'alias', 'mc') if x in case]
         for cand in variants:
             budget -= 1
             if budget <= 0:
